@@ -348,6 +348,10 @@ func (i LInner) C() int          { tr.Hit("m:LInner.C"); return i.c }
 func (i *LInner) PB() string     { tr.Hit("m:LInner.PB"); return i.B }
 func (i LInner) E() (int, error) { err := tr.HitE("m:LInner.E"); return i.A, err }
 
+// CE returns a concrete type that implements error as its second result: not the documented (T, error) getter shape
+// (a nil *tr.E stored in an error is not nil), so it is no getter.
+func (i LInner) CE() (int, *tr.E) { tr.Hit("m:LInner.CE"); return i.A, nil }
+
 type LInner2 struct {
 	A int64
 	B LStr
